@@ -429,7 +429,7 @@ theorem addStaticsCell_values (src : List Cell) (st : List String) (c : Cell) :
   · unfold addStaticsCell
     rw [hs]
     simp only [Cell.addStatics]
-    rw [Dict.get?_union _ _ (Dict.WF_filter hwf _), Dict.get?_filter _ (fun k => st.contains k)]
+    rw [Dict.get?_union _ _ (Dict.WF_filter hwf _), Dict.get?_filter_j _ (fun k => st.contains k)]
     simp [hf]
   · unfold addStaticsCell; rw [hn]
 
